@@ -14,3 +14,5 @@ import SigpyVerif.Props.C06
 import SigpyVerif.Props.C10
 import SigpyVerif.Props.C14
 import SigpyVerif.Props.C08
+import SigpyVerif.Props.C02
+import SigpyVerif.Gen.EffectsOk
